@@ -54,6 +54,8 @@ func (l *memLogger) Log(format string, args ...interface{}) {
 type stateWrap struct {
 	inner state.State
 	hook  func(op, key string, value []byte) error // returning an error aborts the call (crash injection)
+	// readHook is told about the calls that are not writes and not keyed reads (LoadOffset)
+	readHook func(op string)
 }
 
 func (s *stateWrap) call(op, key string, v []byte) error {
@@ -86,14 +88,24 @@ func (s *stateWrap) Delete(key string) error {
 	}
 	return s.inner.Delete(key)
 }
-func (s *stateWrap) Reset(p string) (string, error) { return s.inner.Reset(p) }
+func (s *stateWrap) Reset(p string) (string, error) {
+	if s.readHook != nil {
+		s.readHook("reset")
+	}
+	return s.inner.Reset(p)
+}
 func (s *stateWrap) SaveOffset(o uint64) error {
 	if err := s.call("saveoffset", "offset", nil); err != nil {
 		return err
 	}
 	return s.inner.SaveOffset(o)
 }
-func (s *stateWrap) LoadOffset() (uint64, error) { return s.inner.LoadOffset() }
+func (s *stateWrap) LoadOffset() (uint64, error) {
+	if s.readHook != nil {
+		s.readHook("loadoffset")
+	}
+	return s.inner.LoadOffset()
+}
 
 // storageWrap: same for the board handle of a node.
 type storageWrap struct {
@@ -102,6 +114,8 @@ type storageWrap struct {
 	// mute: sends are swallowed (replicas replaying a log); filter: the node is shown only these messages
 	mute   bool
 	filter func(storage.Message) bool
+	// readHook is told about GetMessages / IgnoreMessages
+	readHook func(op string)
 }
 
 func (s *storageWrap) Send(m ...storage.Message) error {
@@ -116,6 +130,9 @@ func (s *storageWrap) Send(m ...storage.Message) error {
 	return s.inner.Send(m...)
 }
 func (s *storageWrap) GetMessages(o uint64) ([]storage.Message, error) {
+	if s.readHook != nil {
+		s.readHook("getmessages")
+	}
 	ms, err := s.inner.GetMessages(o)
 	if err != nil || s.filter == nil {
 		return ms, err
@@ -128,9 +145,14 @@ func (s *storageWrap) GetMessages(o uint64) ([]storage.Message, error) {
 	}
 	return out, nil
 }
-func (s *storageWrap) Close() error                                     { return s.inner.Close() }
-func (s *storageWrap) IgnoreMessages(m []string, u bool) error          { return s.inner.IgnoreMessages(m, u) }
-func (s *storageWrap) UnignoreMessages()                                { s.inner.UnignoreMessages() }
+func (s *storageWrap) Close() error { return s.inner.Close() }
+func (s *storageWrap) IgnoreMessages(m []string, u bool) error {
+	if s.readHook != nil {
+		s.readHook("ignoremessages")
+	}
+	return s.inner.IgnoreMessages(m, u)
+}
+func (s *storageWrap) UnignoreMessages() { s.inner.UnignoreMessages() }
 
 type vnode struct {
 	idx    int
